@@ -182,7 +182,7 @@ impl Sys {
                 break p;
             }
         };
-        let mut msg = vec![0u8; 128];
+        let mut msg = vec![0u8; 70_000]; // Ed25519 payloads of every length up to well past any plausible internal bound
         r.fill(&mut msg[..]);
         // credential ids: short ones, and lengths that carry key_data across 256 bytes (65 + 191 = 256) up to the
         // 1023 bytes WebAuthn allows
@@ -509,8 +509,14 @@ fn catalogue() -> Vec<Value> {
     }
     // genuine under the second key pair
     c.push(with(wgen(), &[("sig", json!("other_key")), ("key", json!("other"))]));
-    for pl in [0, 1, 31, 32, 33, 64, 100] {
+    for pl in [0, 1, 31, 32, 33, 64, 100, 255, 256, 257, 1023, 1024, 1025, 4095, 4096, 4097, 5000, 65_535, 65_536, 70_000] {
         c.push(with(egen(), &[("plen", json!(pl))]));
+        if pl > 100 {
+            // the last bit of a long payload altered; one byte cut off / appended at its end
+            c.push(with(egen(), &[("plen", json!(pl)), ("payload", json!("other")), ("bit", json!(pl * 8 - 1))]));
+            c.push(with(egen(), &[("plen", json!(pl)), ("payload", json!("short"))]));
+            c.push(with(egen(), &[("plen", json!(pl)), ("payload", json!("long"))]));
+        }
     }
     for t in &PAYLOADS[1..] {
         c.push(with(egen(), &[("payload", json!(t))]));
@@ -572,7 +578,8 @@ fn random_webauthn(r: &mut StdRng) -> Value {
 fn random_ed25519(r: &mut StdRng) -> Value {
     with(egen(), &[
         ("payload", json!(pick(r, &PAYLOADS))), ("key", json!(pick(r, &EKEYS))), ("sig", json!(pick(r, &ESIGS))),
-        ("plen", json!(*pick(r, &[0i64, 1, 2, 31, 32, 33, 64, 128]))),
+        ("plen", json!(*pick(r, &[0i64, 1, 2, 31, 32, 33, 64, 128, 257, 1024, 4096, 4097, 9000]))),
+        ("bit", json!(r.gen_range(0..80_000i64))),
     ])
 }
 
